@@ -3,6 +3,10 @@
 //                                           e = 2/3: ext off/on, the caller CATCHES every refusal and continues with the same writer
 // Every other case that starts with initProgram is played on a writer object that has written another program before (primeWriter).
 // Observation: len bytes... ok  [continue mode: ncalls flag...]  <reader calls> status line nerr   (ok = 0 when the writer threw)
+// Reader OPTION: for every other case (bit 21 of the same hash) whose written text contains no `_heuristic(` the text is read back with
+// SmodelsInput::Options::convertHeuristic() set as well (bit 22: dropConverted() too). Then every symbol goes through the reader's private
+// name table (SmodelsInput::SymTab::add, shared by all steps of an incremental program) instead of straight to output(); as no name is a
+// heuristic predicate nothing is converted or filtered, so for a correct reader the option is INVISIBLE: model and oracle do not depend on it.
 #include "rec.h"
 #include "reuse.h"
 #include <potassco/smodels.h>
@@ -79,6 +83,10 @@ int main() {
 		if (cont) { o.add((ll)flags.size()); for (size_t i = 0; i != flags.size(); ++i) o.add(flags[i]); }
 		Potassco::SmodelsInput::Options op;
 		if (ext) op.enableClaspExt();
+		if (((reuse::hash(c) >> 21) & 1u) != 0 && text.find("_heuristic(") == std::string::npos) {
+			op.convertHeuristic(); // symbols through SymTab::add; nothing to convert, so invisible
+			if (((reuse::hash(c) >> 22) & 1u) != 0) { op.dropConverted(); }
+		}
 		std::istringstream is(text);
 		g_line = 0; g_nerr = 0;
 		int status = 7;
